@@ -572,7 +572,9 @@ func (s *scheduler) lock(m *mutexObj, read bool) {
 			// nobody can ever release it
 			s.deadlock("mutex")
 		}
-		if s.cur.fresh {
+		if s.cur.fresh && !(!read && len(m.readers) > 0) {
+			// (a Lock attempt while readers hold an RWMutex is *not* effect-free: the pending
+			// writer keeps later readers out, so that preemption is kept)
 			// preempting to a goroutine whose first operation is to block on a held mutex is
 			// equivalent to not preempting there (the attempt has no effect; the goroutine will
 			// attempt again after the release in the schedule that does not preempt)
